@@ -37,6 +37,7 @@ for prop in props:
                 name = m.group(5); full = (m.group(3) + '.' + name) if m.group(3) else name
                 starts.append((i + 1, name, full))
         starts.append((len(lines) + 1, None, None))
+        never = []
         for si in range(len(starts) - 1):
             s, name, full = starts[si]; e = starts[si + 1][0] - 1
             if want and name not in want and full not in want: continue
@@ -48,8 +49,12 @@ for prop in props:
                     else: unc.append((sl, el))
             if tot == 0: continue
             pct = 100.0 * cov_n / tot
+            if cov_n == 0:
+                never.append(full); continue
             if unc:
                 print(f'  {file} {full}: {cov_n}/{tot} statements ({pct:.0f}%)')
                 for sl, el in unc:
                     text = ' / '.join(x.strip() for x in lines[sl - 1:min(el, sl + 2)])[:150]
                     print(f'      L{sl}-{el}: {text}')
+        if never:
+            print(f'  {file} never executed: ' + ', '.join(never))
